@@ -51,7 +51,19 @@ def corpus():
     dangerous = [_line_case(0.1, 0.7, k, None, "spacing", False, "corpus-decimal-bounds") for k in (38, 68, 75)] + \
                 [_line_case(0.1, 0.7, None, 0.6 / k, "spacing", False, "corpus-decimal-bounds") for k in (37, 67, 74)] + \
                 [_grid_case((0.1, 0.7, -0.3, 0.3), (75, 38), None, "spacing", False, None, True, "corpus-decimal-bounds")]
-    return dangerous + _corpus()
+    # ratios a hair away from a rounding tie (the count is the integer NEAREST to extent/spacing: 3.4999999 -> 3, 2.5000004 -> 3); the gap is
+    # far above round-off (the exact dyadic offsets below are representable), so both sides are decided
+    near = []
+    for k, d, adj in ((3, -2.0 ** -23, "spacing"), (2, 2.0 ** -21, "region"), (7, -2.0 ** -22, "region"), (12, 2.0 ** -23, "spacing"), (0, 2.0 ** -22, "spacing")):
+        near.append(_line_case(0.0, k + 0.5 + d, None, 1.0, adj, False, "corpus-near-tie"))
+        near.append(_line_case(-4.0, -4.0 + 2 * (k + 0.5 + d), None, 2.0, adj, True, "corpus-near-tie"))
+    # a SQUARE region with different spacings / shapes per direction (north first): nothing may be shared between the two directions
+    square = [_grid_case((0, 10, 0, 10), None, (1.0, 2.0), "spacing", False, None, True, "corpus-square-region"),
+              _grid_case((0, 10, 0, 10), None, (2.5, 1.0), "region", True, None, False, "corpus-square-region"),
+              _grid_case((-3, 5, -3, 5), None, (0.5, 4.0), "spacing", True, [2.0], True, "corpus-square-region"),
+              _grid_case((0, 10, 0, 10), (3, 3), None, "spacing", False, None, True, "corpus-square-region"),
+              _grid_case((0, 10, 0, 10), (4, 7), None, "spacing", True, None, True, "corpus-square-region")]
+    return dangerous + near + square + _corpus()
 
 
 def _corpus():
@@ -109,6 +121,11 @@ def generate(rng, tier):
                 sp = G.positive(rng) * rng.choice([1, 1, 0.25, 4])
                 if rng.random() < 0.15 and ext > 0:   # exact ties
                     sp = ext / (rng.randint(0, 6) + 0.5)
+                elif rng.random() < 0.1:   # a hair away from a tie (decided: the gap is 1e-7, round-off is 1e-16)
+                    kk = rng.randint(0, 9)
+                    start, sp = float(rng.randint(-3, 3)), rng.choice([1.0, 2.0, 0.5])
+                    ext = sp * (kk + 0.5 + rng.choice([-1, 1]) * 2.0 ** -rng.randint(21, 24))
+                    stop = start + ext
                 if ext / sp > 80:
                     sp = ext / rng.randint(1, 80)
                 cs.append(_line_case(start, stop, None, sp, adjust, pixel, "line-spacing"))
@@ -116,6 +133,8 @@ def generate(rng, tier):
                 cs.append(_line_case(start, stop, rng.randint(1, 12), None, adjust, pixel, "line-size"))
         elif u < 0.75:
             reg = G.region(rng, degenerate_ok=True)
+            if rng.random() < 0.12:      # a square region: the same bounds in both directions (spacings / shapes may still differ)
+                reg = (reg[0], reg[1], reg[0], reg[1])
             adjust = rng.choice(["spacing", "region"])
             pixel = rng.random() < 0.5
             extra = _rand_extra(rng)
